@@ -126,6 +126,10 @@ type gen struct {
 	t      *rapid.T
 	sb     bytes.Buffer
 	budget int
+	// white space zoo (wszoo_test.go): probability in percent that a blank-tolerating position
+	// gets a run of "other" white space; 0 = the plain generator
+	zoo  int
+	note zooNote
 }
 
 // uni draws a (nearly) uniform integer in [0,n). rapid's integer generators are biased
@@ -228,35 +232,36 @@ func (g *gen) expr(d int) {
 		g.forExpr(d - 1)
 	case 11:
 		g.expr(d - 1)
-		g.ws()
+		g.wsAt("op")
 		g.w("?")
-		g.wsnlIf()
+		g.wsAt("op")
 		g.expr(d - 1)
-		g.ws()
+		g.wsAt("op")
 		g.w(":")
-		g.ws()
+		g.wsAt("op")
 		g.expr(d - 1)
 	case 12, 13, 14:
 		g.expr(d - 1)
-		g.ws()
+		g.wsAt("op")
 		g.w(g.pick(binOps))
-		g.ws()
+		g.wsAt("op")
 		g.expr(d - 1)
 	case 15:
 		g.w(g.pick([]string{"-", "!", "- ", "!!", "~"}))
 		g.expr(d - 1)
 	case 16, 17:
 		g.w("(")
-		g.wsnl()
+		g.wsnlAt("bracket")
 		g.expr(d - 1)
-		g.wsnl()
+		g.wsnlAt("bracket")
 		g.w(")")
 	case 18:
 		g.expr(d - 1)
+		g.zws("bracket")
 		g.w("[")
-		g.wsnl()
+		g.wsnlAt("bracket")
 		g.expr(d - 1)
-		g.wsnl()
+		g.wsnlAt("bracket")
 		g.w("]")
 	case 19:
 		g.w(g.pick(numbers))
@@ -265,20 +270,21 @@ func (g *gen) expr(d int) {
 	}
 }
 
-// wsnlIf writes plain whitespace (a newline here would end an attribute outside brackets).
-func (g *gen) wsnlIf() { g.ws() }
-
 func (g *gen) traversalExpr(d int) {
 	g.ident()
 	steps := g.n(1, 5)
 	for i := 0; i < steps; i++ {
+		g.zws("traversal")
 		switch g.n(0, 9) {
 		case 0, 1, 2:
 			g.w(".")
+			g.zws("traversal")
 			g.ident()
 		case 3:
 			g.w("[")
+			g.zws("bracket")
 			g.w(g.pick(numbers))
+			g.zws("bracket")
 			g.w("]")
 		case 4:
 			g.w(`["`)
@@ -303,13 +309,15 @@ func (g *gen) traversalExpr(d int) {
 
 func (g *gen) call(d int) {
 	g.w(g.pick([]string{"f", "upper", "length", "try", "can", "concat", "join", "min", "nosuch", "for", "if"}))
+	g.zws("args")
 	g.w("(")
 	n := g.n(0, 3)
 	for i := 0; i < n; i++ {
 		if i > 0 {
+			g.zws("args")
 			g.w(",")
 		}
-		g.wsnl()
+		g.wsnlAt("args")
 		g.expr(d - 1)
 	}
 	switch g.n(0, 7) {
@@ -318,8 +326,9 @@ func (g *gen) call(d int) {
 	case 1:
 		g.w(",")
 	case 2:
-		g.wsnl()
+		g.wsnlAt("args")
 	}
+	g.zws("args")
 	g.w(")")
 }
 
@@ -328,15 +337,16 @@ func (g *gen) tuple(d int) {
 	n := g.n(0, 4)
 	for i := 0; i < n; i++ {
 		if i > 0 {
+			g.zws("bracket")
 			g.w(",")
 		}
-		g.wsnl()
+		g.wsnlAt("bracket")
 		g.expr(d - 1)
 	}
 	if g.coin(15) {
 		g.w(",")
 	}
-	g.wsnl()
+	g.wsnlAt("bracket")
 	g.w("]")
 }
 
@@ -344,7 +354,7 @@ func (g *gen) object(d int) {
 	g.w("{")
 	n := g.n(0, 4)
 	for i := 0; i < n; i++ {
-		g.wsnl()
+		g.wsnlAt("obrace")
 		switch g.n(0, 4) {
 		case 0:
 			g.ident()
@@ -363,13 +373,14 @@ func (g *gen) object(d int) {
 		default:
 			g.expr(d - 1)
 		}
-		g.ws()
+		g.wsAt("eq")
 		g.w(g.pick([]string{"=", "=", ":", "=>", ""}))
-		g.ws()
+		g.wsAt("eq")
 		g.expr(d - 1)
+		g.zws("eol")
 		g.w(g.pick([]string{",", "\n", ",\n", "\r\n", " "}))
 	}
-	g.wsnl()
+	g.wsnlAt("cbrace")
 	g.w("}")
 }
 
@@ -380,18 +391,23 @@ func (g *gen) forExpr(d int) {
 	} else {
 		g.w("[")
 	}
-	g.wsnl()
-	g.w("for ")
+	g.wsnlAt("for")
+	g.w("for")
+	g.sepAt("for")
 	if g.coin(50) {
 		g.ident()
-		g.w(", ")
+		g.zws("for")
+		g.w(",")
+		g.sepAt("for")
 	}
 	g.ident()
+	g.zws("for")
 	g.w(g.pick([]string{" in ", " in ", "\nin\n", " of ", " "}))
+	g.zws("for")
 	g.expr(d - 1)
-	g.ws()
+	g.wsAt("for")
 	g.w(":")
-	g.wsnl()
+	g.wsnlAt("for")
 	if obj || g.coin(10) {
 		g.expr(d - 1)
 		g.w(" => ")
@@ -402,9 +418,10 @@ func (g *gen) forExpr(d int) {
 	}
 	if g.coin(40) {
 		g.w(" if ")
+		g.zws("for")
 		g.expr(d - 1)
 	}
-	g.wsnl()
+	g.wsnlAt("for")
 	if obj {
 		g.w("}")
 	} else {
@@ -429,35 +446,11 @@ func (g *gen) tmplParts(d int, lits []string) {
 		case 0, 1, 2, 3:
 			g.w(g.pick(lits))
 		case 4, 5, 6:
-			g.w(g.pick([]string{"${", "${", "${~", "${ "}))
-			if d > 0 {
-				g.expr(d - 1)
-			} else {
-				g.leaf()
-			}
-			g.w(g.pick([]string{"}", "}", "~}", " }", "", ":}"}))
+			g.interp(d)
 		case 7:
-			g.w(g.pick([]string{"%{ if ", "%{if ", "%{~ if "}))
-			g.expr(d - 1)
-			g.w(g.pick([]string{" }", "}", " ~}"}))
-			g.tmplParts(d-1, lits)
-			if g.coin(50) {
-				g.w(g.pick([]string{"%{ else }", "%{else}", "%{ else ~}"}))
-				g.tmplParts(d-1, lits)
-			}
-			g.w(g.pick([]string{"%{ endif }", "%{endif}", "%{ endfor }", "", "%{ endif"}))
+			g.directive(d, false, lits)
 		case 8:
-			g.w("%{ for ")
-			if g.coin(40) {
-				g.ident()
-				g.w(", ")
-			}
-			g.ident()
-			g.w(" in ")
-			g.expr(d - 1)
-			g.w(g.pick([]string{" }", "}", " ~}"}))
-			g.tmplParts(d-1, lits)
-			g.w(g.pick([]string{"%{ endfor }", "%{endfor}", "%{ endif }", "", "%{ else }"}))
+			g.directive(d, true, lits)
 		default:
 			if g.coin(50) {
 				g.w(g.pick(dirSnippets))
@@ -468,6 +461,45 @@ func (g *gen) tmplParts(d int, lits []string) {
 	}
 }
 
+// directive writes one %{ if } ... %{ endif } or %{ for } ... %{ endfor } construct.
+func (g *gen) directive(d int, isFor bool, lits []string) {
+	if !isFor {
+		g.dirOpen("if", []string{"%{ if ", "%{if ", "%{~ if "})
+		g.expr(d - 1)
+		g.dirClose([]string{" }", "}", " ~}"})
+		g.tmplParts(d-1, lits)
+		if g.coin(50) {
+			g.dirBare("else", []string{"%{ else }", "%{else}", "%{ else ~}"})
+			g.tmplParts(d-1, lits)
+		}
+		if g.zoo > 0 && g.coin(70) {
+			g.dirBare("endif", nil)
+		} else {
+			g.w(g.pick([]string{"%{ endif }", "%{endif}", "%{ endfor }", "", "%{ endif"}))
+		}
+		return
+	}
+	g.dirOpen("for", []string{"%{ for "})
+	if g.coin(40) {
+		g.ident()
+		g.zws("directive")
+		g.w(",")
+		g.sepAt("directive")
+	}
+	g.ident()
+	g.sepAt("directive")
+	g.w("in")
+	g.sepAt("directive")
+	g.expr(d - 1)
+	g.dirClose([]string{" }", "}", " ~}"})
+	g.tmplParts(d-1, lits)
+	if g.zoo > 0 && g.coin(70) {
+		g.dirBare("endfor", nil)
+	} else {
+		g.w(g.pick([]string{"%{ endfor }", "%{endfor}", "%{ endif }", "", "%{ else }"}))
+	}
+}
+
 func (g *gen) quoted(d int) {
 	g.w(`"`)
 	g.tmplParts(d, quotedLits)
@@ -475,18 +507,35 @@ func (g *gen) quoted(d int) {
 }
 
 func (g *gen) heredoc(d int) {
+	g.heredocOf(d, uni(g.t, 3) == 2)
+}
+
+// heredocOf writes <<ID (flush: <<-ID) ... ID; the zoo positions are: before `<<`, between
+// the opening marker and its newline, the indentation and the end of every body line, and
+// before and after the closing marker.
+func (g *gen) heredocOf(d int, flush bool) {
 	marker := g.pick([]string{"EOT", "EOT", "E", "END_1", "é", "a-b"})
-	g.w(g.pick([]string{"<<", "<<", "<<-"}))
+	g.zws("hd-open-pre")
+	if flush {
+		g.w("<<-")
+	} else {
+		g.w("<<")
+	}
 	g.w(marker)
+	g.zws("hd-open-post")
 	g.w(g.pick([]string{"\n", "\n", "\r\n"}))
 	lines := g.n(0, 4)
 	for i := 0; i < lines; i++ {
 		g.w(g.pick([]string{"", "  ", "    ", "\t", " "}))
+		g.zws("hd-indent")
 		g.tmplParts(d, rawLits)
+		g.zws("hd-line-end")
 		g.w(g.pick([]string{"\n", "\n", "\r\n"}))
 	}
 	g.w(g.pick([]string{"", "  ", "\t"}))
+	g.zws("hd-close-pre")
 	g.w(marker)
+	g.zws("hd-close-post")
 	g.w(g.pick([]string{"\n", "\n", "\r\n", "", " \n"}))
 }
 
@@ -515,13 +564,15 @@ func (g *gen) body(d int, indent string) {
 			return
 		}
 		g.w(indent)
+		g.zws("bol")
 		switch g.n(0, 11) {
 		case 0, 1, 2, 3, 4:
 			g.ident()
-			g.ws()
+			g.wsAt("eq")
 			g.w("=")
-			g.ws()
+			g.wsAt("eq")
 			g.expr(d)
+			g.zws("eol")
 			g.w(g.pick([]string{"\n", "\n", "\n", "\r\n", " # c\n", " // c\n", " /* c */\n", ""}))
 		case 5, 6, 7:
 			if d <= 0 {
@@ -531,7 +582,7 @@ func (g *gen) body(d int, indent string) {
 			g.ident()
 			nl := g.n(0, 2)
 			for j := 0; j < nl; j++ {
-				g.w(" ")
+				g.sepAt("label")
 				if g.coin(60) {
 					g.w(`"`)
 					g.w(g.pick(quotedLits))
@@ -540,22 +591,29 @@ func (g *gen) body(d int, indent string) {
 					g.ident()
 				}
 			}
+			g.zws("obrace")
 			g.w(g.pick([]string{" {", " {", "{", " {\n"}))
+			g.zws("obrace")
 			switch g.n(0, 3) {
 			case 0:
 				g.w("}")
 			case 1:
 				g.w(" ")
 				g.ident()
-				g.w(" = ")
+				g.sepAt("eq")
+				g.w("=")
+				g.sepAt("eq")
 				g.expr(d - 1)
-				g.w(" }")
+				g.sepAt("cbrace")
+				g.w("}")
 			default:
 				g.w("\n")
 				g.body(d-1, indent+"  ")
 				g.w(indent)
+				g.zws("cbrace")
 				g.w("}")
 			}
+			g.zws("eol")
 			g.w(g.pick([]string{"\n", "\n", "\r\n", ""}))
 		case 8, 9:
 			g.comment()
@@ -571,13 +629,17 @@ func (g *gen) traversal() {
 	g.ident()
 	n := g.n(0, 5)
 	for i := 0; i < n; i++ {
+		g.zws("traversal")
 		switch g.n(0, 8) {
 		case 0, 1, 2:
 			g.w(".")
+			g.zws("traversal")
 			g.ident()
 		case 3, 4:
 			g.w("[")
+			g.zws("bracket")
 			g.w(g.pick(numbers))
+			g.zws("bracket")
 			g.w("]")
 		case 5:
 			g.w(`["`)
@@ -597,9 +659,41 @@ var jsonNums = []string{"0", "-1", "1.5", "1e10", "1E-3", "1e400", "00", "-", "1
 var jsonKws = []string{"true", "false", "null", "True", "NaN", "undefined", "Infinity", "nul", "nil", "e", "E1"}
 var jsonWS = []string{"", "", " ", "\n", "\t", "\r\n", "  "}
 
-func (g *gen) jws() { g.w(g.pick(jsonWS)) }
+func (g *gen) jws() {
+	if g.zoo > 0 && g.coin(g.zoo) {
+		g.zrun("json")
+		return
+	}
+	g.w(g.pick(jsonWS))
+}
+
+// jsonTemplateString: a JSON string holding a native template written in zoo mode (white
+// space inside its ${ } and %{ } sequences), control characters raw or escaped.
+func (g *gen) jsonTemplateString() {
+	sub := &gen{t: g.t, budget: 6, zoo: g.zoo}
+	sub.tmplParts(1, quotedLits)
+	text := strings.NewReplacer("\\", "\\\\", "\"", "\\\"", "\n", "\\n").Replace(sub.sb.String())
+	if g.coin(60) {
+		text = strings.NewReplacer("\f", "\\f", "\r", "\\r", "\v", "\\u000b", "\t", "\\t", "\u2028", "\\u2028", "\u00a0", "\\u00a0").Replace(text)
+	}
+	g.w(`"`)
+	g.w(text)
+	g.w(`"`)
+	if len(sub.note.at) > 0 {
+		var names []string
+		for n := range sub.note.ch {
+			names = append(names, n)
+		}
+		sort.Strings(names)
+		g.note.add("json-string", names)
+	}
+}
 
 func (g *gen) jsonString(pool []string) {
+	if g.zoo > 0 && g.coin(30) {
+		g.jsonTemplateString()
+		return
+	}
 	g.w(`"`)
 	n := g.n(0, 2)
 	g.w(g.pick(pool))
@@ -661,7 +755,14 @@ func (g *gen) jsonValue(d int) {
 
 // genGrammar produces a syntactically plausible source of the given kind.
 func genGrammar(t *rapid.T, kind string) []byte {
-	g := &gen{t: t, budget: 3 + uni(t, 58)}
+	b, _ := genGrammarL(t, kind, 0)
+	return b
+}
+
+// genGrammarL: the same with the white space zoo at zoo percent (0 = off); also returns the
+// zoo labels of what was written.
+func genGrammarL(t *rapid.T, kind string, zoo int) ([]byte, []string) {
+	g := &gen{t: t, budget: 3 + uni(t, 58), zoo: zoo}
 	d := 1 + uni(t, 5)
 	switch kind {
 	case "config":
@@ -698,7 +799,7 @@ func genGrammar(t *rapid.T, kind string) []byte {
 		}
 		g.jws()
 	}
-	return append([]byte(nil), g.sb.Bytes()...)
+	return append([]byte(nil), g.sb.Bytes()...), g.note.labels()
 }
 
 // ---------------------------------------------------------------------------------
@@ -710,7 +811,29 @@ var badUTF8 = [][]byte{{0x80}, {0xC0}, {0xFF}, {0xE2, 0x82}, {0xF0, 0x9F}, {0xED
 
 var bom = []byte{0xEF, 0xBB, 0xBF}
 
-var mutKinds = []string{"flip", "delete", "dup", "insert", "truncate", "badutf8", "bom", "crlf", "splice", "repeat"}
+var mutKinds = []string{"flip", "delete", "dup", "insert", "truncate", "badutf8", "bom", "crlf", "splice", "repeat", "wszoo"}
+
+// applyMut applies one mutation; the white space zoo mutation also yields labels (they
+// follow the mutation's name in Case.Mut).
+func applyMut(t *rapid.T, c *Case, kind string, other func() []byte) {
+	if kind == "wszoo" {
+		var labels []string
+		c.Src, labels = mutateZoo(t, c.Src)
+		c.Mut = append(c.Mut, kind)
+		for _, l := range labels {
+			dup := false
+			for _, m := range c.Mut {
+				dup = dup || m == l
+			}
+			if !dup {
+				c.Mut = append(c.Mut, l)
+			}
+		}
+		return
+	}
+	c.Src = mutate(t, c.Src, kind, other)
+	c.Mut = append(c.Mut, kind)
+}
 
 func pos(t *rapid.T, n int) int {
 	if n <= 0 {
@@ -905,8 +1028,7 @@ func genCase(t *rapid.T) Case {
 		dc := genDirectiveCase(t)
 		if uni(t, 4) == 0 {
 			k := mutKinds[uni(t, len(mutKinds))]
-			dc.Src = mutate(t, dc.Src, k, func() []byte { return genGrammar(t, "template") })
-			dc.Mut = append(dc.Mut, k)
+			applyMut(t, &dc, k, func() []byte { return genGrammar(t, "template") })
 		}
 		if len(dc.Src) > maxLen() {
 			dc.Src = dc.Src[:maxLen()]
@@ -915,9 +1037,18 @@ func genCase(t *rapid.T) Case {
 			dc.Src = capped
 		}
 		return dc
-	case cls < 74:
+	case cls < 33:
+		// the white space zoo (wszoo_test.go): one construct in focus, "other" white space at
+		// its blank-tolerating positions; the labels travel in Mut
+		c.Gen = "wszoo"
+		c.Src, c.Mut = genZoo(t, kind)
+	case cls < 76:
 		c.Gen = "grammar"
-		c.Src = genGrammar(t, kind)
+		if uni(t, 100) < 15 {
+			c.Src, c.Mut = genGrammarL(t, kind, []int{5, 10, 20, 30}[uni(t, 4)])
+		} else {
+			c.Src = genGrammar(t, kind)
+		}
 	default:
 		c.Gen = "corpus"
 		c.Src = append([]byte(nil), base()...)
@@ -928,13 +1059,12 @@ func genCase(t *rapid.T) Case {
 	}
 	for i := 0; i < nm; i++ {
 		k := mutKinds[uni(t, len(mutKinds))]
-		c.Src = mutate(t, c.Src, k, func() []byte {
+		applyMut(t, &c, k, func() []byte {
 			if rapid.Bool().Draw(t, "spliceFromCorpus") {
 				return base()
 			}
 			return genGrammar(t, kind)
 		})
-		c.Mut = append(c.Mut, k)
 	}
 	if len(c.Src) > maxLen() {
 		c.Src = c.Src[:maxLen()]
